@@ -9079,7 +9079,7 @@ class SVG(Group):
 
         # Semiparse the nodes. All nodes are given in iterparse ordering with start-ns, start, and end.
         # Use values are inlined.
-        def semiparse(nodes):
+        def semiparse(nodes, expanding=()):
             for elem, children in nodes:
                 if children is None:
                     yield None, "start-ns", elem
@@ -9088,7 +9088,7 @@ class SVG(Group):
                 if tag.startswith("{http://www.w3.org/2000/svg"):
                     tag = tag[28:]  # Removing namespace. http://www.w3.org/2000/svg:
                 yield tag, "start", elem
-                yield from semiparse(children)
+                yield from semiparse(children, expanding)
                 if SVG_TAG_USE == tag:
                     url = None
                     semiattr = elem.attrib
@@ -9096,9 +9096,13 @@ class SVG(Group):
                         url = semiattr[XLINK_HREF]
                     if SVG_HREF in semiattr:
                         url = semiattr[SVG_HREF]
-                    if url is not None:
+                    if url is not None and url[1:] not in expanding:
+                        # A reference to an element that is already being expanded (the use itself or
+                        # one of its ancestors) is a cycle: it is not followed.
                         try:
-                            yield from semiparse([event_defs[url[1:]]])
+                            yield from semiparse(
+                                [event_defs[url[1:]]], expanding + (url[1:],)
+                            )
                         except KeyError:
                             pass  # Failed to find link.
                 yield tag, "end", elem
